@@ -17,5 +17,81 @@ pub fn clear_interrupt() {
     crate::machine::INTERRUPT.store(false, Ordering::Relaxed);
 }
 
-/// The buffered UTF-8 character reader (C18), for driving it over a scripted `Read`.
-pub use crate::parser::char_reader::{BadUtf8Error, CharRead, CharReader};
+/// Drives the buffered UTF-8 character reader (`parser::char_reader::CharReader`, C18) over a
+/// scripted `Read` that hands out `chunks` one per `read` call and then reports end of input.
+/// `script` is a sequence of `p` (peek_char), `r` (read_char; after a bad-UTF-8 error the
+/// reported bytes are consumed, as the reader's own unit tests do) and `b` (put back the
+/// character returned by the last successful read). Returns one token per operation:
+/// `c<hex code point>`, `x<hex bytes>` (BadUtf8Error), `.` (end of input), `io` (other error).
+pub fn char_reader_script(chunks: Vec<Vec<u8>>, script: &str) -> Vec<String> {
+    use crate::parser::char_reader::{BadUtf8Error, CharRead, CharReader};
+    use std::io::Read;
+
+    struct Scripted {
+        chunks: Vec<Vec<u8>>,
+        next: usize,
+    }
+
+    impl Read for Scripted {
+        fn read(&mut self, buf: &mut [u8]) -> std::io::Result<usize> {
+            if self.next >= self.chunks.len() {
+                return Ok(0);
+            }
+            let c = &self.chunks[self.next];
+            self.next += 1;
+            let n = c.len().min(buf.len());
+            buf[..n].copy_from_slice(&c[..n]);
+            Ok(n)
+        }
+    }
+
+    fn fmt(x: Option<std::io::Result<char>>) -> (String, usize) {
+        match x {
+            None => (".".into(), 0),
+            Some(Ok(c)) => (format!("c{:x}", c as u32), 0),
+            Some(Err(e)) => match e.downcast::<BadUtf8Error>() {
+                Ok(b) => {
+                    let hex: String = b.bytes.iter().map(|x| format!("{:02x}", x)).collect();
+                    (format!("x{}", hex), b.bytes.len())
+                }
+                Err(_) => ("io".into(), 0),
+            },
+        }
+    }
+
+    let mut out: Vec<String> = Vec::new();
+    let mut rd = CharReader::new(Scripted { chunks, next: 0 });
+    let mut last: Option<char> = None;
+
+    for op in script.chars() {
+        match op {
+            'p' => {
+                let (s, _) = fmt(rd.peek_char());
+                out.push(format!("p:{}", s));
+            }
+            'r' => {
+                let x = rd.read_char();
+                last = match &x {
+                    Some(Ok(c)) => Some(*c),
+                    _ => None,
+                };
+                let (s, n) = fmt(x);
+                if n > 0 {
+                    rd.consume(n);
+                }
+                out.push(format!("r:{}", s));
+            }
+            'b' => {
+                if let Some(c) = last.take() {
+                    rd.put_back_char(c);
+                    out.push("b:ok".into());
+                } else {
+                    out.push("b:none".into());
+                }
+            }
+            _ => {}
+        }
+    }
+
+    out
+}
